@@ -1,4 +1,5 @@
 import MesaModel.Proofs.DevsAbm
+import MesaModel.Proofs.DevsRaise
 /-!
 # C15 — ABMSimulator steps once per tick; chunking a run never changes it
 
@@ -13,9 +14,33 @@ namespace Mesa.Devs
     to `T`, ends in exactly the state — clock, pending events, step counter, complete execution trace —
     that a single `run_until T` produces. -/
 theorem C15_chunking {s s₁ s₂ : Sim} {f f' : Nat} {T : Int} {ps : List Piece} (h : Reachable s)
-    (hin : piecesWithin f T s ps) (h₁ : runPieces f s ps = some s₁) (h₂ : runUntil f' s₁ T = some s₂) :
+    (hin : piecesWithin f T s ps) (hnorm : piecesNormal f s ps) (h₁ : runPieces f s ps = some s₁)
+    (h₂ : runUntil f' s₁ T = some s₂) :
     ∃ g, runUntil g s T = some s₂ :=
-  chunk_pieces (reachable_inv h).1 hin h₁ h₂
+  chunk_pieces (reachable_inv h).1 hin hnorm h₁ h₂
+
+/-- **Interrupted and resumed = uninterrupted.**  `resume f n s T`: the program calls `run_until(T)`; whenever an exception of a
+    callable comes out of it, it catches the exception and calls `run_until(T)` again (at most `n` calls).  `runUntilC`: the
+    uninterrupted run — the loop of `run_until` with every exception caught on the spot, i.e. the run in which the raising programs
+    simply stop at their `raise`.  If the resumed run gets through, it ends with no exception pending in exactly the state —
+    clock, list, counters, complete execution trace — of the uninterrupted run: an exception costs nothing but the rest of the
+    program that raised. -/
+theorem C15_interrupted_run_resumed {s s' : Sim} {f n : Nat} {T : Int} (h : Reachable s) (h0 : s.raised = none)
+    (hres : resume f n s T = some s') : s'.raised = none ∧ ∃ g, runUntilC g s T = some s' :=
+  resume_runUntilC (reachable_inv h).1 h0 hres
+
+/-- ... and when nothing raises, the uninterrupted run is `run_until` itself. -/
+theorem C15_normal_run_is_uninterrupted_run {s s' : Sim} {f : Nat} {T : Int} (hr : runUntil f s T = some s')
+    (hn : s'.raised = none) : runUntilC f s T = some s' := runUntilC_of_normal hr hn
+
+/-- **Chunking with exceptions.**  Any list of pieces (`run_until t`, `run_for d`, `run_next_event`) within the horizon `T`, each of
+    which may be cut short by an exception that the program catches before the next piece, followed by the uninterrupted run to
+    `T`, ends in exactly the state of the uninterrupted run to `T` from the start: where the cuts are, and which pieces met an
+    exception, does not matter. -/
+theorem C15_chunking_with_exceptions {s s₁ s₂ : Sim} {f f' : Nat} {T : Int} {ps : List Piece} (h : Reachable s)
+    (h0 : s.raised = none) (hin : piecesWithinC f T s ps) (h₁ : runPiecesC f s ps = some s₁)
+    (h₂ : runUntilC f' s₁ T = some s₂) : ∃ g, runUntilC g s T = some s₂ :=
+  chunkC_pieces (reachable_inv h).1 h0 hin h₁ h₂
 
 /-- Fuel is only a termination device: more fuel never changes a result. -/
 theorem C15_fuel_irrelevant {f g : Nat} {s s' : Sim} {T : Int} (hfg : f ≤ g)
@@ -24,15 +49,17 @@ theorem C15_fuel_irrelevant {f g : Nat} {s s' : Sim} {T : Int} (hfg : f ≤ g)
 /-- Under ABMSimulator, after any `run_until` to an integer tick `k` (not before the clock),
     `model.steps` equals the clock. -/
 theorem C15_abm_steps_eq_clock {s s' : Sim} {f k : Nat} (h : ReachableAbm s) (hT : s.now ≤ (k : Int) * U)
-    (hr : runUntil f s ((k : Int) * U) = some s') : s'.steps = k ∧ s'.now = (k : Int) * U :=
-  steps_eq_clock (reachable_inv h.reachable).1 (reachableAbm_inv h) hT hr
+    (hr : runUntil f s ((k : Int) * U) = some s') (hn : s'.raised = none) : s'.steps = k ∧ s'.now = (k : Int) * U :=
+  steps_eq_clock (reachable_inv h.reachable).1 (reachableAbm_inv h) hT hr hn
 
 /-- **`model.steps` tracks the clock in every reachable state** (after `run_next_event` too, where equality can fail):
     `steps` ticks lie behind the clock and the next one not yet: `steps·U ≤ now ≤ (steps+1)·U`, and the step of tick
     `steps+1` is armed, live, on the list.  So `steps = ⌊now/U⌋`, except in the one situation `now = (steps+1)·U` — the clock
     has reached a tick whose step is still waiting *at the current time*: this is what `run_next_event` leaves when it executes
-    a user event of HIGH priority that was scheduled for that tick before the step was re-armed (`abm1` below); the very next
-    event executed is then that step.  After `run_until` to a tick the counter equals the clock (`C15_abm_steps_eq_clock`). -/
+    a user event of HIGH priority that was scheduled for that tick before the step was re-armed (`abm1` below), or when such an
+    event raises (aborted states are reachable states); the step of that tick is still armed at the current time and runs after
+    the user events of HIGH priority (or priority < HIGH) that were scheduled for the tick before it was re-armed.  After a
+    `run_until` to a tick that returns normally the counter equals the clock (`C15_abm_steps_eq_clock`). -/
 theorem C15_abm_steps_track_clock {s : Sim} (h : ReachableAbm s) :
     (s.steps : Int) * U ≤ s.now ∧ s.now ≤ ((s.steps : Int) + 1) * U ∧
     ∃ st ∈ s.pending, st.isStep = true ∧ st.cancelled = false ∧ st.dead = false ∧ st.time = ((s.steps : Int) + 1) * U := by
@@ -45,6 +72,28 @@ theorem C15_abm_steps_track_clock {s : Sim} (h : ReachableAbm s) :
   have hfut := hw.future st hmem
   rw [ha.time] at hfut
   exact ⟨hinv.le, hfut, st, hmem, ha.isStep, ha.live, ha.alive, ha.time⟩
+
+/-- **ABM: steps = clock after a run that met exceptions and was resumed** to an integer tick `k`: every aborted intermediate
+    state satisfies `C15_abm_steps_track_clock` (aborted states are `ReachableAbm` states: the step was re-armed before its body
+    ran, `steps` was already incremented), and when the resumed run gets through, `model.steps = k = clock`. -/
+theorem C15_abm_steps_eq_clock_after_resume {s s' : Sim} {f n k : Nat} (h : ReachableAbm s) (h0 : s.raised = none)
+    (hT : s.now ≤ (k : Int) * U) (hres : resume f n s ((k : Int) * U) = some s') :
+    s'.steps = k ∧ s'.now = (k : Int) * U := by
+  induction n generalizing s with
+  | zero => simp [resume] at hres
+  | succ n ih =>
+    simp only [resume] at hres
+    split at hres
+    · simp at hres
+    · rename_i s₁ h₁
+      split at hres
+      · rename_i hx
+        obtain ⟨x, hx'⟩ := Option.isSome_iff_exists.mp hx
+        obtain ⟨_, _, _, _, hle, _⟩ := runUntil_aborted h0 h₁ hx'
+        exact ih (.caught (.until h hT h₁)) rfl hle hres
+      · rename_i hx
+        simp only [Option.some.injEq] at hres; subst hres
+        exact C15_abm_steps_eq_clock h hT h₁ (raised_none_of_isSome_false (Bool.eq_false_iff.mpr hx))
 
 /-- `model.step` has run exactly once at every integer tick 1 … steps, and at no other time. -/
 theorem C15_step_once_per_tick {s : Sim} (h : ReachableAbm s) :
@@ -90,6 +139,22 @@ example : ((runPieces 20 abm0 [.for 1024, .next, .until 2048]).map fun s => (s.s
 def abm1 : Sim := runNext ((runUntil 20 (doCmd (setup (init .abm (fun _ => []) [])) (.schedAbs 2048 1 0)) 1024).getD abm0)
 example : (abm1.steps, abm1.now, abm1.log.map (·.isStep)) = (1, 2048, [true, false]) := by decide
 example : ((runNext abm1).steps, (runNext abm1).now) = (2, 2048) := by decide
+/-- a step body that raises (after scheduling a same-tick LOW event): `run_until(2 ticks)` is cut short at tick 1 with
+    `steps = 1 = clock`, the step of tick 2 already armed (ids 1 = LOW event, 2 = next step); resumed (cut short again at tick 2,
+    resumed again) it ends with `steps = 2 = clock`, and so does the uninterrupted run -/
+def abmR : Sim := setup (init .abm (fun _ => []) [.schedRel 0 10 0, .raise .key, .schedRel 0 10 0])
+example : ReachableAbm abmR := .setup _ _
+example : ((runUntil 20 abmR 2048).map fun s => (s.raised, s.steps, s.now)) = some (some .key, 1, 1024) := by decide
+example : ((runUntil 20 abmR 2048).map fun s => s.pending.map fun e => (e.id, e.isStep, e.time)) =
+    some [(2, false, 1024), (1, true, 2048)] := by decide
+example : ((resume 20 5 abmR 2048).map fun s => (s.raised, s.steps, s.now, s.log.map (·.clock))) =
+    some (none, 2, 2048, [1024, 1024, 2048, 2048]) := by decide
+example : ((runUntilC 20 abmR 2048).map fun s => (s.steps, s.now, s.log.map (·.clock))) =
+    some (2, 2048, [1024, 1024, 2048, 2048]) := by decide
+example : piecesWithinC 20 2048 abmR [.for 1024, .until 2048] :=
+  ⟨by decide, fun _ _ => ⟨Int.le_refl _, fun _ _ => trivial⟩⟩
+example : (((runPiecesC 20 abmR [.for 1024, .next, .until 2048]).bind (runUntilC 20 · 2048)).map
+    fun s => (s.steps, s.now, s.log.map (·.clock))) = some (2, 2048, [1024, 1024, 2048, 2048]) := by decide
 end Example
 
 end Mesa.Devs
